@@ -249,7 +249,7 @@ pub fn run(ctx: &Ctx) -> i32 {
         let p = &progs[k as usize];
         check_file(&p.name, &p.text, acc);
     });
-    let n_pairs = ctx.tier.pick(60u64, 1500u64);
+    let n_pairs = ctx.tier.pick(60u64, 10000u64);
     run_workload(ctx, &mut acc, "corpus-pairs", n_pairs, |_k, rng, acc| {
         let a = rng.pick(&progs);
         let b = rng.pick(&progs);
@@ -262,7 +262,7 @@ pub fn run(ctx: &Ctx) -> i32 {
             check_file(&format!("{}+{}", a.name, b.name), &t, acc);
         }
     });
-    let n_shaped = ctx.tier.pick(300u64, 5000u64);
+    let n_shaped = ctx.tier.pick(300u64, 60000u64);
     run_workload(ctx, &mut acc, "shaped", n_shaped, |k, rng, acc| {
         let t = shaped(k, rng);
         if check_file(&format!("shaped#{}", k), &t, acc) {
@@ -272,7 +272,7 @@ pub fn run(ctx: &Ctx) -> i32 {
             }
         }
     });
-    let n = ctx.tier.pick(400u64, 8000u64);
+    let n = ctx.tier.pick(400u64, 100000u64);
     run_workload(ctx, &mut acc, "generated", n, |k, rng, acc| {
         let mut cfg = Cfg::normal();
         cfg.max_items = 6;
